@@ -131,6 +131,22 @@ def run(res, tier, replay):
             nbad += 1
             res.violation("well-formed %s file: %s" % (m[0], why[:300]), sc.text(), key="c05-" + m[0])
     res.oblige("API level: %d SZDD/KWAJ files report their header fields and expand to the generator's plaintext" % len(scns), nbad == 0)
+    # ---- whole-file model of kwajd.c (Model/Kwaj.v: every optional header field, NONE / XOR / SZDD / MSZIP) vs the C library
+    from props import kwajlib
+    kcases = []
+    for i in range(60 if tier == "quick" else 1500):
+        f, plain_k, comp_k, flags_k = kwajlib.rand_kwaj(rng)
+        kcases.append(f if i % 3 == 0 else kwajlib.damage(rng, f))
+    rck, mok, errk = vlib.run_lines(mexe, ["kwaj"], [vlib.hexs(f) for f in kcases], timeout=3000)
+    ktr = scenario.run_scenarios(iexe, [kwajlib.scn_for(f) for f in kcases])
+    kdiffs = []
+    for f, m, t in zip(kcases, mok, ktr):
+        res.evaluations += 1
+        if t.crash or t.hang or "#X 98" in m: continue
+        if kwajlib.c_canonical(t) != m: kdiffs.append((f, m, kwajlib.c_canonical(t)))
+    res.oblige("correspondence: model of kwajd.c (headers, NONE/XOR/SZDD/MSZIP) = C library on %d KWAJ files (1/3 intact, 2/3 damaged)" % len(kcases), not kdiffs and len(mok) == len(kcases), "%d differ %s" % (len(kdiffs), errk[-200:]) if kdiffs or len(mok) != len(kcases) else "")
+    for f, m, cc in kdiffs[:2]:
+        res.violation("model of kwajd.c and the C library disagree: C %s | model %s" % (cc[:120], m[:120]), kwajlib.scn_for(f).text(), found_input=False)
     if not proofs_ok or alld or bad:
         def s():
             for bs, case, mo, io in alld[:1]:
